@@ -10,7 +10,8 @@ Extracted from the working tree (fail-closed, stdlib `ast` only):
                 (`box_coverage < 40.`) and the two default coverages;
   violinplot.py COVERAGE_CENTER, COVERAGE_EXTREMES, the threshold of
                 `notnull.sum() <= 2`, the bounds of the default number of profile points
-                `max(100, min(500, len(data)))`.
+                `max(100, min(500, len(data)))`, the scale of the jitter added to the
+                quantile abscissae (`err = 1e-6 * np.random.uniform(-1, 1, ...)`).
 Every numeric constant is emitted three times: as an exact rational pair of integers
 (`X_NUM`, `X_DEN`), as a real number (`X_R`) and as a binary64 literal (`X_F`).
 """
@@ -171,6 +172,19 @@ def _violin(tree):
             thr = _cmp(node.test, None, ast.LtE, VIOLIN, "violin minimum sample test")
     if thr is None or not isinstance(thr, int):
         raise BrokenTie(f"{VIOLIN}: Violin._compute: `notnull.sum() <= K` not found")
+    err = None
+    for node in ast.walk(comp):
+        if isinstance(node, ast.Assign) and len(node.targets) == 1 and _is_name(node.targets[0], "err") \
+                and isinstance(node.value, ast.BinOp) and isinstance(node.value.op, ast.Mult) \
+                and isinstance(node.value.right, ast.Call) \
+                and getattr(node.value.right.func, "attr", None) == "uniform":
+            args = node.value.right.args
+            if len(args) < 2 or _num(args[0], VIOLIN, "jitter low") != -1 \
+                    or _num(args[1], VIOLIN, "jitter high") != 1:
+                raise BrokenTie(f"{VIOLIN}: Violin._compute: jitter is not uniform(-1, 1, ...)")
+            err = _num(node.value.left, VIOLIN, "jitter scale")
+    if err is None:
+        raise BrokenTie(f"{VIOLIN}: Violin._compute: `err = S * np.random.uniform(-1, 1, ...)` not found")
     init = _func(tree, "__init__", VIOLIN, cls="Violin")
     lo = hi = None
     for node in ast.walk(init):
@@ -181,7 +195,7 @@ def _violin(tree):
             hi = _num(node.args[1].args[0], VIOLIN, "npoints_kde upper bound")
     if lo is None or not isinstance(lo, int) or not isinstance(hi, int):
         raise BrokenTie(f"{VIOLIN}: Violin.__init__: `max(A, min(B, len(data)))` not found")
-    return thr, lo, hi
+    return thr, lo, hi, err
 
 
 def _emit(w, name, v, comment):
@@ -213,7 +227,7 @@ def render(repo):
     vt = ast.parse(_read(repo, VIOLIN))
     vcenter = _module_const(vt, "COVERAGE_CENTER", VIOLIN)
     vextr = _module_const(vt, "COVERAGE_EXTREMES", VIOLIN)
-    vthr, vlo, vhi = _violin(vt)
+    vthr, vlo, vhi, verr = _violin(vt)
 
     out = []
     w = out.append
@@ -237,6 +251,7 @@ def render(repo):
     _emit(w, "VIOLIN_COVERAGE_EXTREMES", vextr, "violinplot.COVERAGE_EXTREMES")
     w("(* violinplot.Violin._compute: no density profile when count <= KDE_NOK_MAX *)")
     w(f"Definition VIOLIN_KDE_NOK_MAX : Z := ({vthr})%Z.")
+    _emit(w, "VIOLIN_ERR_SCALE", verr, "violinplot.Violin._compute: err = SCALE * uniform(-1, 1)")
     w("(* violinplot.Violin.__init__: npoints_kde = max(LO, min(HI, len(data))) *)")
     w(f"Definition VIOLIN_NPOINTS_LO : Z := ({vlo})%Z.")
     w(f"Definition VIOLIN_NPOINTS_HI : Z := ({vhi})%Z.")
